@@ -71,6 +71,9 @@ func bufOps() []bufOp {
 	// a generous reservation and a Reset that keeps the storage: both leave much more capacity than content
 	ops = append(ops, bufOp{Name: "Grow(300)", Kind: 'g', Apply: func(b *buffer.Buffer) { b.Grow(300) }})
 	ops = append(ops, bufOp{Name: "Reset", Kind: 'z', Apply: func(b *buffer.Buffer) { b.Reset() }})
+	// taking the content out and using the object again (every way of emptying must leave the same fresh buffer)
+	ops = append(ops, bufOp{Name: "TakeRedactableString", Kind: 'z', Apply: func(b *buffer.Buffer) { _ = b.TakeRedactableString() }})
+	ops = append(ops, bufOp{Name: "TakeRedactableBytes", Kind: 'z', Apply: func(b *buffer.Buffer) { _ = b.TakeRedactableBytes() }})
 	// fill an EMPTY buffer up to 60 safe bytes (already escaped), so that the following levels work at the edge of
 	// the first 64-byte allocation (spare capacity 4,3,2,1,0 and the re-allocation)
 	fill := strings.Repeat("a", 60)
